@@ -316,7 +316,7 @@ MUTANTS = [
     dict(name="bip143-single-output-single-sha", file="script/interpreter.cpp", find="            ss << txTo.vout[nIn];\n            hashOutputs = ss.GetHash();", replace="            ss << txTo.vout[nIn];\n            hashOutputs = ss.GetSHA256();", expect=["R02.7:finaliser:bip143"]),
     dict(name="bip143-single-output-renamed-single-sha", file="script/interpreter.cpp", find="            HashWriter ss{};\n            ss << txTo.vout[nIn];\n            hashOutputs = ss.GetHash();", replace="            HashWriter sha_single_output{};\n            sha_single_output << txTo.vout[nIn];\n            hashOutputs = sha_single_output.GetSHA256();", expect=["R02.7:finaliser:bip143"]),
     dict(name="stepper-forgets-opcode_pos", file="debugger/interpreter.cpp", find="        ++env.opcode_pos; // position of the next opcode in this script (BIP342 codeseparator_pos), as in EvalScript\n", replace="", expect=["R02.1:opcode_pos-advanced-per-step"]),
-    dict(name="opcode_pos-not-restarted", file="debugger/interpreter.cpp", find="        env.nOpCount = 0; // reset to avoid hitting limit prematurely!\n        env.opcode_pos = 0;\n        return true;\n    }\n\n    // we are at end", replace="        env.nOpCount = 0; // reset to avoid hitting limit prematurely!\n        return true;\n    }\n\n    // we are at end", expect=["R02.1:opcode_pos-restarts"]),
+    dict(name="opcode_pos-not-restarted", file="debugger/interpreter.cpp", find="        env.nOpCount = 0; // reset to avoid hitting limit prematurely!\n        env.opcode_pos = 0;\n        env.altstack.clear();", replace="        env.nOpCount = 0; // reset to avoid hitting limit prematurely!\n        env.altstack.clear();", expect=["R02.1:opcode_pos-restarts"]),
     dict(name="codesep-init-dropped", file="instance.cpp", find="    execdata.m_codeseparator_pos = 0xFFFFFFFFUL;\n    execdata.m_codeseparator_pos_init = true;\n\n    env = new InterpreterEnv", replace="    env = new InterpreterEnv", expect=["R02.2:init=m_codeseparator_pos_init"]),
     dict(name="annex-init-only-with-annex", file="instance.cpp", find="                execdata.m_annex_present = false;\n            }\n            execdata.m_annex_init = true;", replace="                execdata.m_annex_present = false;\n            }", expect=["R02.2:init=m_annex_init"]),
     dict(name="codesep-stores-next-pos", file="script/interpreter.cpp", find="execdata.m_codeseparator_pos = opcode_pos;", replace="execdata.m_codeseparator_pos = opcode_pos + 1;", expect=["R02.1:separator-records-opcode_pos", "R02.2:codeseparator_pos-sources"]),
